@@ -1,6 +1,6 @@
 (* Status.v -- model of doit/dependency.py: MD5Checker / TimestampChecker (385-432),
    Dependency.save_success (528-560), get_values/get_result (562-589), remove_success, ignore,
-   status_is_ignore (591-602), Dependency.get_status (604-722); the uptodate helpers run_once,
+   status_is_ignore (591-602), Dependency.get_status (604-724); the uptodate helpers run_once,
    config_changed (doit/tools.py 37-81) and result_dep (doit/task.py 619-674, single-task form)
    with their value-savers (Task.save_extra_values, task.py 459-462).  Definitions only.
 
@@ -11,13 +11,18 @@
      (MD5Checker.check_modified unpacks a float, MD5Checker.get_state indexes a float): the model
      makes that an explicit outcome ([None] of [check_modified], [GSCrash], status [Crash],
      save outcome [SaveCrash]) instead of hiding it.
-   * [ver] selects the code version.  [current] is the code in /repo (HEAD, after the two `fix:`
-     commits this model led to); [legacy] is the code before them, kept so that the two defects
-     stay stated (Properties/C03.v, `..._legacy_refuted`) next to the theorems about the current code:
+   * [ver] selects the code version.  [current] is the code in /repo (HEAD, after the three `fix:`
+     commits this model led to); [legacy] is the code before them, kept so that the defects
+     stay stated (Properties/C03.v, Properties/C10.v, `..._legacy_refuted`) next to the theorems about
+     the current code:
        fixA (6d84766): the dep-set comparison of get_status is also made when the saved 'deps:' is
               empty (`previous is not None` instead of `previous`);
-       fixB (f6ac8a0): save_success drops the task's record first when another checker wrote it.
-   Line numbers refer to doit/dependency.py at HEAD. *)
+       fixB (f6ac8a0): save_success drops the task's record first when another checker wrote it;
+       fixC (the `fix:` commit on the loop `for dep in task.file_dep:` of get_status): a file
+              dependency that is not in the saved 'deps:' list is listed in `changed` whatever state
+              an older execution left for it (save_success never drops the entries of files that
+              left file_dep), `or (previous_set is not None and dep not in previous_set)`.
+   Line numbers refer to doit/dependency.py at HEAD (with the repair fixC). *)
 From DoitV Require Export Base.
 Open Scope Z_scope.
 
@@ -33,9 +38,9 @@ Definition ck_z (c : ck) : Z := match c with MD5 => 1 | TS => 2 end.
 (* state saved per file: MD5Checker (timestamp, size, md5) | TimestampChecker mtime *)
 Inductive fstate := MD5state (m s : Z) (d : N) | TSstate (m : Z).
 
-Record ver := { fixA : bool; fixB : bool }.
-Definition current : ver := {| fixA := true; fixB := true |}.
-Definition legacy : ver := {| fixA := false; fixB := false |}.
+Record ver := { fixA : bool; fixB : bool; fixC : bool }.
+Definition current : ver := {| fixA := true; fixB := true; fixC := true |}.
+Definition legacy : ver := {| fixA := false; fixB := false; fixC := false |}.
 
 (* ---- task values: dict str -> int|None, keys coded as numbers ---- *)
 Definition vals := list (N * option N).
@@ -231,8 +236,9 @@ Definition save_success_rec (c : ck) (fs : fsys) (r0 : rec) (deps : list file) (
 Definition save_success (c : ck) (fs : fsys) (d : db) (t : name) (deps : list file) (values : vals) (result : option N) : db * save_out :=
   let '(r, o) := save_success_rec c fs (getrec d t) deps values result in (upd d t (Some r), o).
 
-(* ---- get_status, 604-722 ---- *)
-(* one file_dep inside the loop: os.stat fails | no saved state / modified | unmodified | TypeError *)
+(* ---- get_status, 604-724 ---- *)
+(* the saved state of one file against the file system: os.stat fails | no saved state / modified |
+   unmodified | TypeError *)
 Definition file_verdict (c : ck) (fs : fsys) (r : rec) (f : file) : fv :=
   match fs f with
   | None => FMissing
@@ -246,11 +252,31 @@ Definition file_verdict (c : ck) (fs : fsys) (r : rec) (f : file) : fv :=
                   end
       end
   end.
+(* `previous_set is not None and dep not in previous_set` (693, 716) *)
+Definition outside_saved_deps (r : rec) (f : file) : bool :=
+  match r_deps r with Some p => negb (mem f p) | None => false end.
+(* one file_dep inside the loop (705-718): `state is None or (previous_set is not None and dep not in
+   previous_set) or check_modified(dep, file_stat, state)`, in that order (a dependency outside the saved
+   set is listed without its old state being compared: no TypeError for it).  Before fixC: [file_verdict]. *)
+Definition dep_verdict (c : ck) (fs : fsys) (r : rec) (f : file) : fv :=
+  match fs f with
+  | None => FMissing
+  | Some st =>
+      match r_saved r f with
+      | None => FChanged
+      | Some s => if fixC v && outside_saved_deps r f then FChanged else
+                  match check_modified c st s with
+                  | None => FCrash
+                  | Some true => FChanged
+                  | Some false => FSame
+                  end
+      end
+  end.
 Fixpoint check_files (c : ck) (fs : fsys) (r : rec) (get_log : bool) (deps changed missing : list file) : floop :=
   match deps with
   | [] => FLDone (rev changed) (rev missing)
   | f :: rest =>
-      match file_verdict c fs r f with
+      match dep_verdict c fs r f with
       | FMissing => if get_log then check_files c fs r get_log rest changed (f :: missing) else FLError f
       | FChanged => check_files c fs r get_log rest (f :: changed) missing
       | FSame => check_files c fs r get_log rest changed missing
@@ -299,7 +325,7 @@ Definition get_status (c : ck) (fs : fsys) (d : db) (t : name) (df : tdef) (get_
     end in
   let before_loop := if utd_false || nodeps || target_missing || ck_changed || deps_changed then Run else UpToDate in
   let changed_so_far := if target_missing || ck_changed then file_dep df else [] in
-  (* 702-720: each file *)
+  (* 702-722: each file *)
   match check_files c fs r get_log (file_dep df) [] [] with
   | FLCrash => {| g_status := Crash; g_changed := changed_so_far; g_reasons := rs0; g_db := d1 |}
   | FLError f => {| g_status := Error; g_changed := changed_so_far; g_reasons := rs0; g_db := d1 |}
